@@ -90,6 +90,10 @@ impl Q {
             let mut rd = a.rounded;
             let r = normalise(r, &mut rd);
             a.rounded = rd;
+            if a.vals.len() > 24_000_000 {
+                // a single case should never need this many big values; stop as "inconclusive" instead of exhausting the machine
+                panic!("{}: exact-scalar arena exceeds 24M big values in one case", Q_UNIMPL_MARKER);
+            }
             a.vals.push(r);
             Q::Fin { idx: (a.vals.len() - 1) as u32, generation: a.generation }
         })
